@@ -4,6 +4,8 @@ import (
 	"fmt"
 	"go/token"
 	"go/types"
+	"os"
+	"os/exec"
 	"regexp"
 	"sort"
 	"strings"
@@ -200,6 +202,7 @@ func checkC17(p *Prog, r *Report) {
 	}
 
 	nExplicit, nMust, nNil, nBounds, nLib := 0, 0, 0, 0, 0
+	boundSites := map[string]bool{}
 	var pres []nilPre
 	// vbNonNil: in a message handler (which baseapp runs only after the message's ValidateBasic), msg.<field> is non-nil when
 	// every accepting path of ValidateBasic established it.
@@ -467,47 +470,92 @@ func checkC17(p *Prog, r *Report) {
 					}
 				}
 				// ---------------- P-bounds ----------------
+				var bx ssa.Value   // indexed / sliced value
+				var bidx ssa.Value // index (IndexAddr/Index) or nil
+				var bsl *ssa.Slice
 				switch x := in.(type) {
 				case *ssa.IndexAddr:
-					if c, ok := x.Index.(*ssa.Const); ok {
-						if _, isArr := derefType(x.X.Type()).Underlying().(*types.Array); isArr {
+					bx, bidx = x.X, x.Index
+				case *ssa.Index:
+					bx, bidx = x.X, x.Index
+				case *ssa.Slice:
+					if x.Low != nil || x.High != nil {
+						bx, bsl = x.X, x
+					}
+				}
+				if bx != nil {
+					if _, isArr := derefType(bx.Type()).Underlying().(*types.Array); isArr && bsl == nil {
+						if _, isC := bidx.(*ssa.Const); isC {
+							continue // constant index into a fixed-size array: checked by the compiler
+						}
+					}
+					if al, _ := rootAlloc(bx); al != nil {
+						continue // local array / literal under construction
+					}
+					if sl0, isSl := bx.(*ssa.Slice); isSl {
+						if _, isAl := sl0.X.(*ssa.Alloc); isAl && bsl == nil {
 							continue
 						}
-						if _, isAl := x.X.(*ssa.Alloc); isAl {
-							continue
-						}
-						if sl, isSl := x.X.(*ssa.Slice); isSl {
-							if _, isAl := sl.X.(*ssa.Alloc); isAl {
-								continue // slice of a local array literal
+					}
+					nBounds++
+					site := p.Pos(in.Pos())
+					boundSites[fmt.Sprintf("%s:%d", p.File(in.Pos()), p.Fset.Position(in.Pos()).Line)] = true
+					xt := o.Of(bx)
+					what := "index"
+					if bsl != nil {
+						what = "slice"
+					}
+					key := kp("PANIC", fmt.Sprintf("P-bounds:%s#%s:%s@%s", fname, what, in.(ssa.Value).Name(), blockTag(fn, b)))
+					rule := "every index / slice operation on externally influenced data has its bound established (dominating length fact, loop bound, pinned producer length, linear arithmetic on a freshly made buffer) — or lies in the composite-key codec whose arithmetic C18 decides"
+					if pkgPathOf(fn) == Rel(compkeyPkg) {
+						r.OK(key, rule, site, "types/compkey: index arithmetic decided in linear normal form by C18 (D1/D2)")
+						continue
+					}
+					ok2, wit := false, ""
+					switch {
+					case bidx != nil:
+						if c, isC := bidx.(*ssa.Const); isC {
+							ok2, wit = lenFactAtLeast(fa, in, xt, c.Int64()+1)
+						} else {
+							// loop index: dominated by  idx < len(x)
+							it := o.Of(bidx)
+							wit, ok2 = fa.DominatingFact(in, true, func(t *Term) bool {
+								return t.Op == "lt" && t.Args[0].Eq(it) && t.Args[1].IsCall("builtin:len") && t.Args[1].Args[0].Eq(xt)
+							})
+							if !ok2 {
+								// range-over-slice lowering: idx = phi+1 tested against len computed before the loop from the same operand
+								wit, ok2 = fa.DominatingFact(in, true, func(t *Term) bool {
+									return t.Op == "lt" && t.Args[0].Eq(it) && t.Args[1].IsCall("builtin:len")
+								})
+								if ok2 {
+									wit = "loop bound " + clip(wit, 80)
+								}
 							}
 						}
-						nBounds++
-						xt := o.Of(x.X)
-						ok2, wit := lenFactAtLeast(fa, in, xt, c.Int64()+1)
-						r.Check(ok2, kp("PANIC", fmt.Sprintf("P-bounds:%s#index[%d]@%s", fname, c.Int64(), blockTag(fn, b))), "a constant index needs a dominating length fact", p.Pos(x.Pos()), wit,
-							fmt.Sprintf("%s indexes %s[%d] without a dominating fact len >= %d", fname, clip(xt.String(), 80), c.Int64(), c.Int64()+1))
-					}
-				case *ssa.Index:
-					if c, ok := x.Index.(*ssa.Const); ok {
-						nBounds++
-						xt := o.Of(x.X)
-						ok2, wit := lenFactAtLeast(fa, in, xt, c.Int64()+1)
-						r.Check(ok2, kp("PANIC", fmt.Sprintf("P-bounds:%s#index[%d]@%s", fname, c.Int64(), blockTag(fn, b))), "a constant index needs a dominating length fact", p.Pos(x.Pos()), wit,
-							fmt.Sprintf("%s indexes %s[%d] without a dominating fact len >= %d", fname, clip(xt.String(), 80), c.Int64(), c.Int64()+1))
-					}
-				case *ssa.Slice:
-					// fixed-offset slices of values whose length is externally determined
-					hi, okh := x.High.(*ssa.Const)
-					if x.High != nil && okh {
-						if _, isAl := x.X.(*ssa.Alloc); isAl {
-							continue
+					case bsl != nil:
+						if hi, okh := bsl.High.(*ssa.Const); bsl.High != nil && okh {
+							ok2, wit = sliceBoundOK(p, o, fa, in, bsl, xt, hi.Int64())
+						} else if bsl.High == nil && bsl.Low != nil {
+							// x[lo:] : freshly made buffer with len = lo + (non-negative lengths), or HasPrefix(x, p) with lo = len(p)
+							if ms, isMS := bx.(*ssa.MakeSlice); isMS {
+								d := LinOf(ms.Len).Sub(LinOf(bsl.Low))
+								nonneg := d.C >= 0
+								for sym, c := range d.Coef {
+									if c < 0 || !strings.HasPrefix(sym, "len(") {
+										nonneg = false
+									}
+								}
+								ok2, wit = nonneg, "len(buffer) - low = "+d.String()+" >= 0"
+							}
+							if !ok2 {
+								lt := o.Of(bsl.Low)
+								wit, ok2 = fa.DominatingFact(in, true, func(t *Term) bool {
+									return t.IsCall("strings.HasPrefix") && len(t.Args) == 2 && t.Args[0].Eq(xt) && lt.IsCall("builtin:len") && lt.Args[0].Eq(t.Args[1])
+								})
+							}
 						}
-						nBounds++
-						xt := o.Of(x.X)
-						ok2, wit := sliceBoundOK(p, o, fa, in, x, xt, hi.Int64())
-						r.Check(ok2, kp("PANIC", fmt.Sprintf("P-bounds:%s#slice[:%d]@%s", fname, hi.Int64(), blockTag(fn, b))), "a constant slice bound needs a dominating length/capacity fact or a producer with a pinned length", p.Pos(x.Pos()), wit,
-							fmt.Sprintf("%s slices %s[..:%d] without an established length", fname, clip(xt.String(), 80), hi.Int64()))
 					}
+					r.Check(ok2, key, rule, site, wit, fmt.Sprintf("%s: %s on %s without an established bound (index/bounds: %v)", fname, what, clip(xt.String(), 80), in))
 				}
 			}
 		}
@@ -577,6 +625,9 @@ func checkC17(p *Prog, r *Report) {
 	r.Floor("P-nil-sites", nNil, 5)
 	r.Floor("P-bounds-sites", nBounds, 3)
 	r.Floor("P-lib-sites", nLib, 4)
+	if r.Tier == "thorough" {
+		bceCrossCheck(p, r, kp, scope, boundSites)
+	}
 	// end-block clause (shared with C07-D1)
 	for _, mod := range []string{"x/aol", "x/did", "x/pnft", "x/burn"} {
 		if am := p.Named(Rel(mod), "AppModule"); am != nil {
@@ -857,4 +908,56 @@ func ivLenFact(p *Prog, fn *ssa.Function, at ssa.Instruction, iv *Term, reach *R
 		}
 	}
 	return okAll && n > 0, strings.Join(wits, " | ")
+}
+
+// bceCrossCheck (thorough tier): the compiler's list of bounds checks it could not eliminate is used to validate the
+// *enumeration* of P-bounds obligations: every unproven check that sits on an index/slice instruction of an in-scope function must
+// be a site the checker enumerated (and therefore discharged or reported). The verdicts stay the checker's own.
+func bceCrossCheck(p *Prog, r *Report, kp func(string, string) string, scope []*ssa.Function, enumerated map[string]bool) {
+	cmd := exec.Command("go", "build", "-a", "-gcflags=-d=ssa/check_bce/debug=1", "./types/compkey", "./x/aol/...", "./x/did/...", "./x/pnft/...", "./x/burn/...")
+	cmd.Dir = p.RepoDir
+	cmd.Env = append(os.Environ(), "GOFLAGS=-mod=mod", "GOPROXY=off", "GOSUMDB=off", "GOTOOLCHAIN=local", "GOWORK=off")
+	out, _ := cmd.CombinedOutput()
+	// in-scope index/slice instruction lines
+	instrLines := map[string]string{}
+	for _, fn := range scope {
+		for _, b := range fn.Blocks {
+			for _, in := range b.Instrs {
+				switch in.(type) {
+				case *ssa.IndexAddr, *ssa.Index, *ssa.Slice, *ssa.Lookup:
+					if in.Pos().IsValid() {
+						instrLines[fmt.Sprintf("%s:%d", p.File(in.Pos()), p.Fset.Position(in.Pos()).Line)] = FuncName(fn)
+					}
+				}
+			}
+		}
+	}
+	re := regexp.MustCompile(`^(?:\./)?([^:\s]+\.go):(\d+):\d+: Found (IsInBounds|IsSliceInBounds)`)
+	total, inScope, missing := 0, 0, 0
+	for _, line := range strings.Split(string(out), "\n") {
+		m := re.FindStringSubmatch(strings.TrimSpace(line))
+		if m == nil || strings.HasSuffix(m[1], ".pb.go") || strings.HasSuffix(m[1], ".pb.gw.go") {
+			continue
+		}
+		total++
+		k := m[1] + ":" + m[2]
+		fn, ok := instrLines[k]
+		if !ok {
+			continue // outside the entry-reachable scope, or inside inlined library code
+		}
+		inScope++
+		if !enumerated[k] {
+			missing++
+			r.Fail(kp("PANIC", "P-bounds:bce-cross-check:"+k), "every compiler-unproven bounds check on an index/slice instruction of an in-scope function is an obligation the checker enumerated", k,
+				fmt.Sprintf("the compiler cannot prove the %s at %s (in %s) and the checker has no obligation for it", m[3], k, fn))
+		}
+	}
+	if total == 0 {
+		r.Fail(kp("PANIC", "P-bounds:bce-cross-check#ran"), "the compiler cross-check produced output", p.RepoDir, "go build -gcflags=-d=ssa/check_bce/debug=1 listed nothing: "+clip(string(out), 300))
+		return
+	}
+	r.OK(kp("PANIC", "P-bounds:bce-cross-check#enumeration-complete"), "every compiler-unproven bounds check on an index/slice instruction of an in-scope function is an obligation the checker enumerated", "go build -gcflags=-d=ssa/check_bce/debug=1",
+		fmt.Sprintf("%d unproven checks in hand-written module code, %d on in-scope index/slice instructions, %d not enumerated", total, inScope, missing))
+	r.Count("bce-unproven-total", total)
+	r.Count("bce-unproven-in-scope", inScope)
 }
